@@ -128,6 +128,8 @@ pub enum Op {
     FreeShift,
     ForeignFind(u64),
     Redo(usize),
+    /// `table-growth`: intern this many seeded functions (and drop them) so that the table grows by thousands of nodes
+    Bulk(u64, u16),
     /// a blanked step (left behind by minimisation so that step numbers stay stable)
     Nop,
     // U-world: BDDSet clients
@@ -173,6 +175,7 @@ impl Op {
             Op::FreeShift => "free-shift".into(),
             Op::ForeignFind(_) => "foreign-find".into(),
             Op::Redo(_) => "redo".into(),
+            Op::Bulk(..) => "table-growth".into(),
             Op::Nop => "nop".into(),
             Op::SetNew => "set.with_env".into(),
             Op::SetFromElement(_) => "set.from_element".into(),
@@ -422,6 +425,9 @@ pub fn gen_plan(rng: &mut Prng, property: &str, tier: &Tier) -> EnvPlan {
             if faults.redo {
                 cands.push(5);
             }
+            if faults.alloc && nvars >= 4 {
+                cands.push(6);
+            }
             if !cands.is_empty() {
                 let op = match *rng.pick(&cands) {
                     0 => Op::DropHandle(sel(rng)),
@@ -432,6 +438,7 @@ pub fn gen_plan(rng: &mut Prng, property: &str, tier: &Tier) -> EnvPlan {
                     }
                     3 => Op::FreeShift,
                     4 => Op::ForeignFind(rng.next_u64()),
+                    6 => Op::Bulk(rng.next_u64(), *rng.pick(&[8u16, 8, 40, 40, 200, 600])),
                     _ => Op::Redo(sel(rng)),
                 };
                 steps.push(Step {
@@ -1397,6 +1404,32 @@ impl<'p, W: World> Exec<'p, W> {
                     }
                     Caught::Budget | Caught::Cancel => {}
                 }
+                Ok(true)
+            }
+            Op::Bulk(seed, count) => {
+                let mut st = *seed;
+                let names = self.names.clone();
+                let env = Rc::clone(&self.env);
+                let n = self.n;
+                let count = *count;
+                let before = self.env.size();
+                let r = catch(|| {
+                    for _ in 0..count {
+                        let tt = crate::prng::splitmix64(&mut st) & low_mask(n);
+                        let _ = recreate(&env, &canon64::<W::S>(tt, n, &|i| W::sym(&names, i)));
+                    }
+                });
+                if let Caught::Panic(m, l) = r {
+                    if self.prop() == "C13" {
+                        return Err(viol("C13", "I2", &format!("mk_choice@{l}"), step_no, format!("interning {count} diagrams panicked: {m} @ {l}")));
+                    }
+                }
+                bump(&mut self.stats, "fault.table-growth");
+                bump_by(&mut self.stats, "probe.table.nodes_added_by_growth", (self.env.size() - before) as u64);
+                if self.env.size() > 4096 {
+                    bump(&mut self.stats, "probe.table.above_4096_nodes");
+                }
+                self.faults_fired += 1;
                 Ok(true)
             }
             Op::Redo(k) => {
